@@ -39,7 +39,7 @@ def norm_dt(x):
     if isinstance(x, datetime):
         off = x.utcoffset()
         zid = getattr(x.tzinfo, "key", None) or getattr(x.tzinfo, "zone", None)
-        if off is not None and off == timedelta(0) and zid in (None, "UTC", "Etc/UTC"):
+        if off is not None and off == timedelta(0) and zid in (None, "UTC"):
             zid = "UTC"
         return ("dt", x.replace(tzinfo=None), off, zid)
     if isinstance(x, date):
